@@ -34,7 +34,7 @@ var v1Strings = []string{"", " ", "\t", "  ", "ab", "x", ">>", "\n", " \t x", "Ã
 func (sc *V1Misc) Run(t *core.Tape, env *Env) (any, []core.Violation) {
 	s := t.S("plan")
 	p := &V1MiscPlan{}
-	p.Op = []string{"Indent", "Indent", "Indent", "Compact", "HTMLEscape", "Valid", "MarshalIndent", "Encoder.SetIndent", "Unmarshal-syntactic-error-from-user-code", "Unmarshal-legacy-user-error-then-continue", "Unmarshal-legacy-user-error-then-continue", "HTMLEscape", "Unmarshal-odd-interface-map-key", "Value-methods", "Value-methods", "Value-methods"}[s.Draw(16)]
+	p.Op = []string{"Indent", "Indent", "Indent", "Compact", "HTMLEscape", "Valid", "MarshalIndent", "Encoder.SetIndent", "Unmarshal-syntactic-error-from-user-code", "Unmarshal-legacy-user-error-then-continue", "Unmarshal-legacy-user-error-then-continue", "HTMLEscape", "Unmarshal-odd-interface-map-key", "Value-methods", "Value-methods", "Value-methods", "Unmarshal-bytes-formats"}[s.Draw(17)]
 	src := gen.Text(s, gen.JSONCfg{MaxBytes: 16 + s.Draw(300), MaxDepth: 1 + s.Draw(4), DupNames: true, InvalidUTF8: s.Chance(1, 4), CollideNames: s.Chance(1, 3)})
 	if s.Chance(1, 3) {
 		src = gen.Mutate(s, src)
@@ -142,6 +142,48 @@ func (sc *V1Misc) Run(t *core.Tape, env *Env) (any, []core.Violation) {
 			var m2 map[any]any
 			json.Unmarshal([]byte(`{"a":1,"b":{"c":2}}`), &m2, fn, jsontext.AllowDuplicateNames(true))
 			_ = e
+			return nil
+		case "Unmarshal-bytes-formats":
+			// encoded []byte / [N]byte under every `format:` (needs the experimental
+			// switch, forced on here): quanta, padding and what may follow it
+			json.ExperimentalGlobalSupportFormatTag(true)
+			alpha := []string{"A", "T", "G", "a", "f", "0", "7", "9", "=", "=", "-", "_", "+", "/", "\\n", "\\r", " ", "Z", "\\u0041"}
+			var in []byte
+			for i, n := 0, s.Draw(20); i < n; i++ {
+				in = append(in, alpha[s.Draw(len(alpha))]...)
+			}
+			for i, n := 0, s.Draw(9); i < n; i++ {
+				in = append(in, '=')
+			}
+			for i, n := 0, s.Draw(3); i < n; i++ {
+				in = append(in, alpha[s.Draw(len(alpha))]...)
+			}
+			text := []byte(`{"b":"` + string(in) + `"}`)
+			loose := jsonv1.ParseBytesWithLooseRFC4648(s.Bool())
+			var t1 struct {
+				B []byte `json:"b,format:base64"`
+			}
+			var t2 struct {
+				B []byte `json:"b,format:base64url"`
+			}
+			var t3 struct {
+				B []byte `json:"b,format:base32"`
+			}
+			var t4 struct {
+				B []byte `json:"b,format:base32hex"`
+			}
+			var t5 struct {
+				B []byte `json:"b,format:base16"`
+			}
+			var t6 struct {
+				B [3]byte `json:"b,format:base32"`
+			}
+			var t7 struct {
+				B []byte `json:"b"`
+			}
+			for _, tgt := range []any{&t1, &t2, &t3, &t4, &t5, &t6, &t7} {
+				json.Unmarshal(text, tgt, loose)
+			}
 			return nil
 		case "Value-methods":
 			if s.Chance(1, 2) {
